@@ -30,13 +30,18 @@ g2 = {"package": SA, "files": ["../C06/c06_handshake.go", "../C06/c06_model_head
                     inst("VP_C01_LeftoverServer", {"seg": 2, "hole": 0, "sym": 0, "n": 2}),
                     inst("VP_C01_LeftoverClient", {"seg": 0, "hole": 0, "sym": 0, "n": 4}),
                     inst("VP_C01_LeftoverServer", {"seg": 2, "hole": 0, "sym": 0, "n": 5}, tiers=("thorough",))]}
-spec = {"property": "C01", "groups": [g1, g2],
+import sys
+sys.path.insert(0, os.path.dirname(os.path.abspath(__file__)))
+from srvstubs import server_stubs, SERVER_PKG, SERVER_INIT
+g3 = {"package": SERVER_PKG, "files": ["../C03/srv_env.go", "../C03/c03_routing.go", "c01_server.go"], "native_replay": False, "init_allow": SERVER_INIT,
+      "stubs": server_stubs(), "instances": [inst("VP_C01_WsServerLimits", {}, expect_reach=["limits-checked"])]}
+spec = {"property": "C01", "groups": [g1, g2, g3],
  "bounds": {
   "websocket_write": "one write of 0..25 arbitrary bytes with the frame buffer scaled to 8 bytes (below, at, above and at multiples of the buffer size)",
   "websocket_read": "1-2 (3 thorough) messages of symbolic length 1..7 (12 thorough) read directly and through BufferedInputConnection (reader buffer scaled to 4 bytes) with caller buffers of symbolic size 1..3 (8 direct) per read",
   "wrappers": "every composition of depth 1-2 (3 thorough) of the eight wrapper constructors, 3-4 arbitrary bytes each way, caller buffers of symbolic size",
   "leftover": "1-4 (5 thorough) arbitrary bytes following the handshake in the same byte stream, every single cut point / byte-wise / single chunk delivery, server and client role",
-  "constants": "that the real (unscaled) multiplexer frame size derived from BufferSize lies in 1..65535 on client and server is checked by the smux.Server / smux.Client contract stubs of the C02/C03/C14/C16 harnesses (they refuse a configuration outside that range, which fails those checks' session-established assertions)",
+  "constants": "on a real (unscaled) http endpoint started and upgraded for real: the multiplexer frame size lies in 1..65535, frame + 8-byte header <= BufferSize, and a websocket read limit - if one is set - admits a full frame; the client side's frame size is checked by the smux.Client stub of C16",
   "outside": "smux, KCP, TLS, kernel sockets, the DNS carrier (C07/C09/C10), MiB payloads, concurrent copy loops (C17): this is a claim about the adapter layers socketace itself puts on the data path, not an end-to-end result over every transport"
  },
  "assumptions": [
